@@ -514,7 +514,14 @@ def handover(ctx, rule):
         ctx.check(ok, rule, fn, nm, "%s is applied before every Ok return%s" % (want, " ('debug_id' wins over 'debugId')" if nm == "set_debug_id" else ""), detail=str(cs))
     ig = [(bi, q.shape(b.expr_of_call(t), roles)) for bi, t in q.calls_to(b, "types::SourceMap::add_to_ignore_list")]
     it = [sh for l in sorted(b.var_names) for sh, _, _ in q.def_shapes(b, l, roles) if sh == "IntoIterator::into_iter(try(arg1.ignore_list))"]
-    ctx.check(len(ig) == 1 and ig[0][1] == "SourceMap::add_to_ignore_list(sm,try(Iterator::next(var:IntoIter<u32>)))" and len(it) == 1, rule, fn, "ignore_list", "every ignoreList entry is applied", detail=str(ig))
+    from rules.common import for_each_form
+    fe = for_each_form(b, ["Iterator::flatten(IntoIterator::into_iter(arg1.ignore_list))", "IntoIterator::into_iter(try(arg1.ignore_list))", "Iterator::flatten(Option::into_iter(arg1.ignore_list))"])
+    if fe is not None and not ig:
+        sm_sh = q.shape(b.expr_of_local(sm)) if sm is not None else "?"
+        ctx.check(len(fe[2]) == 1 and q.wild("SourceMap::add_to_ignore_list(*,arg2)", fe[2][0]) and bool(oks) and all(b.dominates(fe[0], o) for o in oks), rule, fn, "ignore_list",
+                  "every ignoreList entry is applied (for_each over the list)", detail=str(fe[2]))
+    else:
+        ctx.check(len(ig) == 1 and ig[0][1] == "SourceMap::add_to_ignore_list(sm,try(Iterator::next(var:IntoIter<u32>)))" and len(it) == 1, rule, fn, "ignore_list", "every ignoreList entry is applied", detail=str(ig))
     okv = [q.shape(b.expr_of_rvalue(s["rv"]), roles) for bi, si, s, it2 in b.locations() if not it2 and s["k"] == "assign" and s["place"]["l"] == 0 and s["rv"]["k"] == "agg" and s["rv"].get("variant") == "Ok"]
     ctx.check(okv == ["Result::Ok{0:sm}"], rule, fn, "returns-map", "that map is returned", detail=str(okv))
     # lenient names (C02.R7)
@@ -593,7 +600,8 @@ def field_coverage(ctx, rule):
     ctx.remark("index maps read x_facebook_offsets / x_metro_module_paths but do not re-emit them (not among the observables C01 lists)")
     h = ctx.body("hermes::decode_hermes")
     lit = [h.expr_of_rvalue(s["rv"]) for bi, si, s, it in h.locations() if not it and s["k"] == "assign" and s["rv"]["k"] == "agg" and s["rv"].get("adt") == "hermes::SourceMapHermes"]
-    ok = len(lit) == 1 and q.shape(lit[0].field("raw_facebook_sources")) == "Option::Some{0:try(Option::ok_or(Option::take(arg1.x_facebook_sources),Error::IncompatibleSourceMap{}))}" \
+    ok = len(lit) == 1 and q.shape(lit[0].field("raw_facebook_sources")) in ("Option::Some{0:try(Option::ok_or(Option::take(arg1.x_facebook_sources),Error::IncompatibleSourceMap{}))}",
+                                                                             "Option::Some{0:try(Option::take(arg1.x_facebook_sources))}") \
         and q.shape(lit[0].field("sm")) == "try(decoder::decode_regular(arg1))"
     ctx.check(ok, rule, h.path, "hermes:retains-raw", "the Hermes decoder keeps the raw x_facebook_sources verbatim next to the regular map")
     encrules.hermes_payload(ctx, rule)
